@@ -251,7 +251,14 @@ func (w *_node) LookupByString(key string) (datamodel.Node, error) {
 				schemaType: ktyp,
 				val:        reflect.New(valuesVal.Type().Key()).Elem(),
 			}
-			if err := (*_assemblerRepr)(asm).AssignString(key); err != nil {
+			var err error
+			if _, ok := ktyp.(*schema.TypeEnum); ok {
+				// an enum key is a string at this level too: the member's name, as the iterator yields it
+				err = asm.AssignString(key)
+			} else {
+				err = (*_assemblerRepr)(asm).AssignString(key)
+			}
+			if err != nil {
 				return nil, err
 			}
 			kval = asm.val
